@@ -407,7 +407,7 @@ theorem slowDomain_of_exact {F : FTy} (hF : IsLemireFloat F) {p eb : Nat} (lay :
     have hrd : C01Slow.roundedDown F { mant := fp.mant, exp := fp.exp - invalidFp } = C01.roundedDown F fp := rfl
     have hfin : C01Slow.roundedDown F { mant := fp.mant, exp := fp.exp - invalidFp } < F.fmt.infBits := by
       rw [hrd]; have := FN.big; omega
-    refine ⟨f1, f2, hfe, hfin, ?_⟩
+    refine ⟨f1, f2, hfe, Or.inl ⟨hfin, ?_⟩⟩
     obtain ⟨kq1, kq2⟩ := roundedDown_kq lay { mant := fp.mant, exp := fp.exp - invalidFp } f1 f2 hfin
     simp only at kq1 kq2
     generalize hK : (fp.exp - invalidFp + 64 - ↑p - 1).toNat = K at *
